@@ -194,3 +194,82 @@ func TestRegressPromotedPrimaryStaysWitness(t *testing.T) {
 			err, dup, err2, lb != nil && hkey(lb) == hkey(wb[5]), dumpRecs(ep.log))
 	}
 }
+
+// Backwards verification (target below the lowest trusted height) follows the hash links of the headers it fetches
+// down to the target height - and then stores the light block it was handed FIRST, without comparing it with the
+// header it arrived at. A primary that answers the first request for the target height with a made-up header and
+// every later request with the real one gets the made-up header trusted.
+func TestRegressBackwardsTrustsUnlinkedHeader(t *testing.T) {
+	w := fixedWorld(t, 5)
+	defer w.c.Close()
+	ep := newEpisode()
+	defer ep.close()
+	pb, _ := overlay(w.g, nil)
+	primary := w.newNode(ep, "primary:two-faced", pb, w.L)
+	fs := forkSpec{j: 2, m: 2, fv: lib.NewValSet([]int{attackerKey}, []int64{1}), signers: []int{attackerKey}, timeMode: "genuine", salt: "regress-twofaced"}
+	forged := w.build(fs, func(h int64) *types.LightBlock { return w.g[h] })[2]
+	primary.firstAnswer = map[int64]*types.LightBlock{2: forged}
+	hb, _ := overlay(w.g, nil)
+	honest := w.newNode(ep, "honest", hb, w.L)
+
+	first := func(pend []*req) int { return 0 }
+	st := dbs.New(dbm.NewMemDB(), w.chainID)
+	var cl *light.Client
+	var err error
+	now := w.T(w.L).Add(time.Second)
+	ep.run(func() {
+		cl, err = light.NewClient(ep.ctx, w.chainID, light.TrustOptions{Period: time.Hour, Height: 4, Hash: w.g[4].Hash()},
+			primary, []provider.Provider{honest}, st, light.MaxClockDrift(time.Millisecond), light.MaxBlockLag(0))
+	}, first)
+	if err != nil {
+		t.Fatalf("NewClient: %v", err)
+	}
+	ep.mu.Lock()
+	ep.call = 1
+	ep.mu.Unlock()
+	ep.run(func() { _, err = cl.VerifyLightBlockAtHeight(ep.ctx, 2, now) }, first)
+	if lb, _ := st.LightBlock(2); lb != nil && hkey(lb) != hkey(w.g[2]) {
+		t.Fatalf("height 2: header %X, which no validator signed and header 3 does not link to, is in the trusted store (err=%v); the real header is %X\n%s",
+			lb.Hash(), err, w.g[2].Hash(), dumpRecs(ep.log))
+	}
+}
+
+// The same path stores the light block without looking at anything but its header: a provider that does not validate
+// what it returns (the Provider interface does not ask for it) gets the genuine header trusted together with a
+// validator set that header does not name. Later non-adjacent steps from that block are judged against that set.
+func TestRegressBackwardsStoresMalformedBlock(t *testing.T) {
+	w := fixedWorld(t, 5)
+	defer w.c.Close()
+	ep := newEpisode()
+	defer ep.close()
+	pb, _ := overlay(w.g, nil)
+	primary := w.newNode(ep, "primary:raw", pb, w.L)
+	primary.raw = true
+	fv := lib.NewValSet([]int{attackerKey, attackerKey + 1}, []int64{5, 5})
+	primary.blocks[2] = lib.ForgeLightBlock(w.chainID, *w.g[2].Header, fv.Set, false, 0, fv.Keys, nil) // genuine header, foreign set, self-signed commit
+	hb, _ := overlay(w.g, nil)
+	honest := w.newNode(ep, "honest", hb, w.L)
+
+	first := func(pend []*req) int { return 0 }
+	st := dbs.New(dbm.NewMemDB(), w.chainID)
+	var cl *light.Client
+	var err error
+	now := w.T(w.L).Add(time.Second)
+	ep.run(func() {
+		cl, err = light.NewClient(ep.ctx, w.chainID, light.TrustOptions{Period: time.Hour, Height: 4, Hash: w.g[4].Hash()},
+			primary, []provider.Provider{honest}, st, light.MaxClockDrift(time.Millisecond), light.MaxBlockLag(0))
+	}, first)
+	if err != nil {
+		t.Fatalf("NewClient: %v", err)
+	}
+	ep.mu.Lock()
+	ep.call = 1
+	ep.mu.Unlock()
+	ep.run(func() { _, err = cl.VerifyLightBlockAtHeight(ep.ctx, 2, now) }, first)
+	rf := newRef(w.chainID, time.Hour, time.Millisecond, 1, 3)
+	if lb, _ := st.LightBlock(2); lb != nil {
+		if werr := rf.wellFormed(lb); werr != nil {
+			t.Fatalf("height 2 is trusted (err=%v) as a light block that is not well formed: %v", err, werr)
+		}
+	}
+}
